@@ -36,7 +36,7 @@ type chanState struct {
 	nrecv   int
 }
 
-func chanKey[T any](ch chan T) uintptr {
+func chanKey[C any](ch C) uintptr {
 	return uintptr(*(*unsafe.Pointer)(unsafe.Pointer(&ch)))
 }
 
@@ -159,7 +159,7 @@ func (s *Sim) doRecv(c *chanState) (any, bool) {
 
 // --- public generic API ------------------------------------------------------
 
-func Send[T any](ch chan T, v T) {
+func Send[T any](ch chan<- T, v T) {
 	s := S
 	if ch == nil {
 		s.Pre("send", 0, "nil")
@@ -186,7 +186,7 @@ func Send[T any](ch chan T, v T) {
 	}
 }
 
-func Recv2[T any](ch chan T) (T, bool) {
+func Recv2[T any](ch <-chan T) (T, bool) {
 	s := S
 	if ch == nil {
 		s.Pre("recv", 0, "nil")
@@ -206,12 +206,12 @@ func Recv2[T any](ch chan T) (T, bool) {
 	return cast[T](v), ok
 }
 
-func Recv[T any](ch chan T) T {
+func Recv[T any](ch <-chan T) T {
 	v, _ := Recv2(ch)
 	return v
 }
 
-func Close[T any](ch chan T) {
+func Close[T any](ch chan<- T) {
 	s := S
 	if ch == nil {
 		s.check()
@@ -248,7 +248,7 @@ func Close[T any](ch chan T) {
 	}
 }
 
-func Len[T any](ch chan T) int {
+func Len[T any](ch <-chan T) int {
 	s := S
 	if ch == nil {
 		return 0
@@ -273,22 +273,22 @@ type SelResult struct {
 	ok    bool
 }
 
-func RecvCase[T any](ch chan T) SelCase {
+func RecvCase[T any](ch <-chan T) SelCase {
 	if ch == nil {
 		return SelCase{nilc: true}
 	}
 	return SelCase{c: S.chanOf(chanKey(ch), cap(ch), ch)}
 }
 
-func SendCase[T any](ch chan T, v T) SelCase {
+func SendCase[T any](ch chan<- T, v T) SelCase {
 	if ch == nil {
 		return SelCase{nilc: true, send: true}
 	}
 	return SelCase{c: S.chanOf(chanKey(ch), cap(ch), ch), send: true, val: v}
 }
 
-func SelRecv2[T any](ch chan T, r SelResult) (T, bool) { return cast[T](r.val), r.ok }
-func SelRecv[T any](ch chan T, r SelResult) T          { return cast[T](r.val) }
+func SelRecv2[T any](ch <-chan T, r SelResult) (T, bool) { return cast[T](r.val), r.ok }
+func SelRecv[T any](ch <-chan T, r SelResult) T          { return cast[T](r.val) }
 
 func Select(hasDefault bool, cases ...SelCase) SelResult {
 	s := S
@@ -363,4 +363,28 @@ func Select(hasDefault bool, cases ...SelCase) SelResult {
 	v, ok := g.wv, g.wok
 	g.wv = nil
 	return SelResult{Index: i, val: v, ok: ok}
+}
+
+// InjectSend delivers a value into a channel from scheduler context (timer
+// callbacks: time.After, Timer, Ticker). Never blocks: the value is dropped
+// if neither a receiver waits nor buffer space is left (as Go's timers do).
+func InjectSend[T any](s *Sim, ch chan T, v T) {
+	c := s.chanOf(chanKey(ch), cap(ch), ch)
+	if c.closed {
+		return
+	}
+	if w := popWaiter(&c.recvq); w != nil {
+		w.g.wv, w.g.wok, w.g.widx = v, true, w.idx
+		c.nsent++
+		c.nrecv++
+		s.ready(w.g)
+		return
+	}
+	if len(c.buf) < c.cap {
+		c.buf = append(c.buf, v)
+		c.nsent++
+		if s.race != nil {
+			c.bufvc = append(c.bufvc, nil)
+		}
+	}
 }
